@@ -182,6 +182,11 @@ def merge_states(states: list[State], prefix_len: int, extra_values: list | None
                 newf[k] = join(vals)
             except Unmergeable as e:
                 raise Unmergeable(f"variable {k}: {e}")
+            from .values import Phi
+            if isinstance(newf[k], Phi):
+                # path-dependent concrete values are tolerated only in write-only heap fields; a local variable is
+                # going to be used, so the paths stay separate
+                raise Unmergeable(f"variable {k}: path-dependent concrete value")
         out.frames[d] = newf
     # heap
     hkeys = []
